@@ -1326,7 +1326,7 @@ class mulgrid(object):
             bottom *= self.unit_scale
             newlayer = layer(name, bottom)
             self.add_layer(newlayer)
-            if centre: centre *= self.unit_scale
+            if centre is not None: centre *= self.unit_scale
             else:
                 nlayers = len(self.layer)
                 if nlayers > 1:
